@@ -7,7 +7,7 @@ MODULE = "PQ.Props.C06"
 THEOREMS = ["PQ.C06." + t for t in (
     "empty_write_inert", "empty_write_inert_file", "empty_write_inert_batches", "chain_is_chunks", "chain_shape", "chain_page_count",
     "chain_columns", "state_is_stateOf", "footerT_eq", "rowgroups_refine_batches", "sink_calls_shape", "sink_calls_history",
-    "pending_at_close_dropped", "pending_at_close_dropped_file", "offsets_truthful", "offsets_contiguous")]
+    "pending_at_close_dropped", "pending_at_close_dropped_file", "offsets_truthful", "offsets_contiguous")] + ["PQ.C02.file_valid"]
 
 
 def histories(chk, z, thorough):
@@ -55,7 +55,7 @@ def run(chk):
         cov["steps"] = rebuild_tools(chk.log)
         cov["steps"]["zoo"] = build_zoo(chk.log)
         build_pqh(chk.log)
-        pr = proof_stage(chk, MODULE, THEOREMS)
+        pr = proof_stage(chk, MODULE, THEOREMS, ["PQ.Props.C02"], audit_imports=["PQ.Props.C02"])
     pair = Pair(chk.log)
     zs = filelevel.load_zoos(pair, ["three"])
     z = zs["three"]
